@@ -205,6 +205,11 @@ def register_unprotect(reg, prog):
                 g.append(('a-kid-in-the-option-is-the-recipient-id-of-this-security-context',
                           z3.Implies(z3.Select(dom, z3.IntVal(4)), ev('k == old(self.recipient_id)', k=kid_in_option))))
                 g.append(('a-request-carries-a-partial-iv', z3.Implies(is_req, z3.Select(dom, z3.IntVal(6)))))
+        # C13 / RFC 8613 B.1.2: the request identifiers permit the response to reuse the request's nonce only if the replay window
+        # vouched for the request; a request let in through the Echo exchange (or answered with the challenge) was possibly answered
+        # under that nonce in an earlier lifetime
+        g.append(('nonce-reuse-only-for-a-request-the-window-vouched-for',
+                  z3.Implies(z3.And(is_req, ev('res_[1] is not None and res_[1].can_reuse_nonce is True', res_=result)), accepted_by_window)))
         g.append(('option-was-extracted', B('extract' in kinds)))
         for e in s.log:
             if e[0] == 'rw_init_fresh':
@@ -216,6 +221,16 @@ def register_unprotect(reg, prog):
 
     def unp_raise(ctx):
         return z3.And(B(True), *[g for _, g in order_ok(ctx.st)])
+
+    def echo_challenge_fresh_nonce(ctx):
+        """the 4.01 carrying the Echo challenge is protected with the request identifiers in the exception: they must not allow the
+        request's nonce to be used again (the request may be a replay whose response already went out under that nonce)"""
+        exc = ctx.st.ghost.get('$raised')
+        if exc is None:
+            from pyvc.values import Unsupported
+            raise Unsupported('no exception object at a call site')
+        rid = ctx.ex.read_field(ctx.st, exc, 'request_id', Opt(Ref('RequestIdentifiersI')))
+        return ctx.ex.truth(ctx.st, ctx.ex.spec_val(ctx.st, 'rid is not None and rid.can_reuse_nonce is False', env=dict(ctx.env, rid=rid)))
 
     RAISES = ['ProtectionInvalid', 'DecodeError', 'ReplayError', 'ReplayErrorWithEcho', 'NotAProtectedMessage', 'UnparsableMessage']
     reg.contract(CU + '.unprotect', self_class='SecCtx', params={'protected_message': MSG, 'request_id': Opt(Ref('RequestIdentifiersI'))},
@@ -237,4 +252,5 @@ def register_unprotect(reg, prog):
                            'implies(request_id is not None, request_id.request_hash is None and len(request_id.kid) <= 255 and len(request_id.kid) <= self.alg_aead.iv_bytes - 6 '
                            'and len(request_id.kid) <= self.alg_group_enc.iv_bytes - 6 and len(request_id.partial_iv) <= 5)'],
                  raises={k: MAY for k in RAISES}, only_raises=True, modifies=['*'], at_exit=unp_exit,
-                 raises_post={k: {'window-untouched-unless-decryption-succeeded': unp_raise} for k in RAISES})
+                 raises_post={k: dict({'window-untouched-unless-decryption-succeeded': unp_raise},
+                                      **({'echo-challenge-does-not-reuse-the-request-nonce': echo_challenge_fresh_nonce} if k == 'ReplayErrorWithEcho' else {})) for k in RAISES})
